@@ -268,6 +268,43 @@ def run_solvers(rep, broken, sols, monitor, tier, *, n, nsweep, nontrivial=None,
     return found_input
 
 
+def search_failing_input(rep, sols, monitor, tier, *, n, nsweep, rounds=6, label=''):
+    """A proof obligation or a tie broke and the first pass found no failing input: run the REAL solvers only
+    (no replay) on fresh seeds, larger batches and more stop-injection sweeps, until a monitor fires.
+    → True iff a failing input was recorded."""
+    per = max(1, (2 * n) // max(1, len(sols)))
+    for k in range(rounds):
+        for s in sols:
+            exe, log = s.build()
+            if exe is None:
+                continue
+            rng = random.Random(C.seed() * 7919 + 1000 * (k + 1) + zlib.crc32(s.name.encode()) % 1000)
+            try:
+                ops = s.gen_ops(rng, per, exe, max(2, 2 * nsweep))
+                hout, rc, err = C.run_lines(exe, ops, timeout=3000)
+            except subprocess.TimeoutExpired:
+                continue
+            rep.cov['evaluations'] += len(hout)
+            st = {}
+            for o, h in zip(ops, hout):
+                if s.skip_monitor(o):
+                    continue
+                try:
+                    m = monitor(s, o, h, st)
+                except Exception as e:
+                    m = f'monitor crashed on {h[:80]!r}: {e!r}'
+                if m:
+                    key = None
+                    if isinstance(m, tuple):
+                        m, key = m
+                    before = len(rep.violations)
+                    rep.violation(f'[{s.name}] {label}search: {m}', {'solver': s.name, 'op': o, 'impl_out': h[:20000]},
+                                  True, key=key)
+                    if len(rep.violations) > before:
+                        return True
+    return False
+
+
 def stage_inputs(pid, sols, extra_modules=()):
     """(modules, gen scripts, extra sources, driver targets) of a property over the given solvers."""
     modules = list(extra_modules)
@@ -309,6 +346,9 @@ def loop_check(pid, argv, *, monitor, n_quick, n_thorough, sweep_quick, sweep_th
         extra_stage(rep, broken, tier)
         found_input = found_input or sum(1 for v in rep.violations if v[2]) > before
     broken.extend(g for g in C.GEN_ERRORS if g not in broken)     # feedback generators that could not read the output
+    if broken and not found_input:
+        rep.note('obligation / tie broken; searching for a failing input on the real solvers')
+        found_input = search_failing_input(rep, sols, monitor, tier, n=n, nsweep=nsweep)
     if broken:
         for b in broken:
             rep.note('BROKEN: ' + b[:700])
